@@ -272,7 +272,7 @@ def golden() -> bool:
     return fin(ok)
 
 
-NODES = {"flat": 1, "pair": 1, "floats": 1, "nested": 3, "shared": 4, "deep": 3, "list": 3, "dict": 3, "nestedlists": 1, "cyc2": 2, "cyc3": 3, "taskself": 2, "taskout": 4, "tasklist": 3, "pretask": 4}
+NODES = {"marker": 4, "nestedcont": 4, "flat": 1, "pair": 1, "floats": 1, "nested": 3, "shared": 4, "deep": 3, "list": 3, "dict": 3, "nestedlists": 1, "cyc2": 2, "cyc3": 3, "taskself": 2, "taskout": 4, "tasklist": 3, "pretask": 4}
 
 
 def conditions(tier):
@@ -289,14 +289,13 @@ def conditions(tier):
         # (b) histories: symbolic operation sequence (first operation
         # enumerated by the shard), concrete leaves
         ops = "full" if tier == "quick" else "all"
-        if tier == "quick":
-            k = 3 if sk in caching else 2
-        else:
-            k = 4 if sk in caching else 3
+        # three operations are the minimum for "request, assign, seal" (then
+        # the final check requests again)
+        k = 3 if tier == "quick" else 4
         n = NODES[sk]
         nops = (3 if ops == "full" else 4) * n + (0 if sk in ("taskself", "taskout", "tasklist") else 1)
-        firsts = list(range(nops)) if (sk in caching and n >= 3) else [None]
-        for fs in ([0] * 8, [1] * 8) if tier == "thorough" or sk not in caching else ([1] * 8,):
+        firsts = list(range(nops)) if n >= 3 else [None]
+        for fs in ([0] * 8, [1] * 8) if tier == "thorough" else ([1] * 8,):
             for h0 in firsts:
                 nm = f"history/{sk}/k{k}sel{fs[0]}" + (f"first{h0}" if h0 is not None else "")
                 conds.append({"name": nm, "func": "ident_history", "shard": {"sk": sk, "k": k, "lens": [1] * nstr, "fixed_sels": fs, "data": "concrete", "ops": ops, "h0": h0, "symz": tier == "thorough"}, "timeout": 400 if tier == "quick" else 2400})
